@@ -32,6 +32,7 @@ EXPLANATION = (
     "reads the top of the stack. Given these facts Python's with/ContextDecorator protocol implies by induction on "
     "nesting depth that after a well-nested sequence the stack equals the one before the matching entry."
     ' Added since: R17.1 locates the push/pop primitives by role and judges their shape; R17.5 judges transformations of the flattened layer tuple as a pipeline (reversals cancel, de-duplication keeps the innermost copy).'
+    ' Round 4: R17.10 named interpretations are flattened to atomic layers; a rule of a partial layer P may call T.interpret only for reflect, a partial T, or a total T whose layers lie in a declared layering that contains P.'
 )
 ASSUMPTIONS = [
     "Python's `with` statement and contextlib.ContextDecorator call __exit__ exactly once for every __enter__ that returned",
